@@ -5,7 +5,7 @@
              construction API of Base/Api.v (add with add_connected_nodes / allow_redefinition, add_blackbox).
    Literal tables (tie base names, constant spellings, parity list) come from the regenerated Gen_fastv.v. *)
 From Coq Require Import Ascii.
-From stdpp Require Import strings gmap sets pretty.
+From stdpp Require Import strings gmap sets pretty sorting.
 From CG Require Export Types Api Oracle.
 From CG Require Import Gen.Gen_fastv.
 Open Scope string_scope.
@@ -266,16 +266,32 @@ Definition in_subset (a : ast) (bbs : list bbdef) : bool :=
   bool_decide (NoDup (a_ports a)) &&
   bool_decide ((list_to_set (a_ports a) : gset string) = list_to_set ins ∪ list_to_set outs).
 
-(* ---------------------------------------------------------------- oracle helper (specification side, used by Run_C14.holds) *)
-(* same function at every output and blackbox input pin: exhaustive over the free nodes (at most 8), with the
-   consistency certificate of evalc on both sides; soundness: Proofs/FastVerilogProofs.same_function_sound *)
+(* ---------------------------------------------------------------- oracle helpers (specification side, used by Run_C14.holds) *)
+(* memoising evaluation in rank order (Oracle.evalc recomputes shared cones); its result is only a CANDIDATE: the oracle
+   accepts it through the certificate consistentb + agreement with the assignment on the free nodes *)
+Definition rank_le (x y : string * nat) : Prop := x.2 ≤ y.2.
+Global Instance rank_le_dec x y : Decision (rank_le x y). Proof. unfold rank_le. apply _. Defined.
+Definition node_order (c : circuit) : list string :=
+  (λ p : string * nat, p.1) <$> merge_sort rank_le (map_to_list (rank_table c)).
+Definition mval (m : gmap string bool) (a : val) : val := λ n, default (a n) (m !! n).
+Definition fev (c : circuit) (order : list string) (a : val) : val :=
+  mval (foldl (λ m n, match c !! n with
+               | Some i => <[n := if is_free i then a n else
+                                  match n_ty i with C0 => false | C1 => true | t => gate_val t (mval m a) (n_fi i) end]> m
+               | None => m end) ∅ order) a.
+
+(* same function at every output and blackbox input pin: exhaustive over the free nodes (at most 8); every candidate valuation
+   is accepted only with its consistency certificate; soundness: Proofs/FastVerilogProofs.same_function_sound *)
 Definition same_function (Cf Cl : Circuit) : bool :=
   let free := elements (free_nodes (c_g Cf)) in
   let obs := elements (endpoints (c_g Cf)) in
+  let of := node_order (c_g Cf) in let ol := node_order (c_g Cl) in
   bool_decide (free_nodes (c_g Cf) = free_nodes (c_g Cl)) && bool_decide (endpoints (c_g Cf) = endpoints (c_g Cl)) &&
   (if (length free <=? 8)%nat && acyclicb (c_g Cf) && acyclicb (c_g Cl) && closedb (c_g Cf) && closedb (c_g Cl) then
-     forallb (λ a, let vf := evalc (c_g Cf) a in let vl := evalc (c_g Cl) a in
-                   consistentb (c_g Cf) vf && consistentb (c_g Cl) vl && eq_on obs vf vl) (all_vals free)
+     forallb (λ a, let vf := fev (c_g Cf) of a in let vl := fev (c_g Cl) ol a in
+                   consistentb (c_g Cf) vf && consistentb (c_g Cl) vl && eq_on free vf a && eq_on free vl a && eq_on obs vf vl)
+             (all_vals free)
    else true).
 Definition same_function_decided (Cf Cl : Circuit) : bool :=
   (length (elements (free_nodes (c_g Cf))) <=? 8)%nat && acyclicb (c_g Cf) && acyclicb (c_g Cl) && closedb (c_g Cf) && closedb (c_g Cl).
+
